@@ -13,6 +13,11 @@ use serde_json::{json, Value};
 
 pub const TIMEOUTS: [u64; 5] = [0, 1, 1_000_000, 10_000_000_000, u64::MAX];
 
+/// clock epochs used by the history checks (0, 1 ns, ~11.5 days); only elapsed time may matter
+pub fn clock_start(h: u64) -> u64 {
+    if HAVE_CLOCK { [0u64, 1, 1_000_000_000_000_000][(h % 3) as usize] } else { 0 }
+}
+
 pub fn timeout_opt(ns: u64) -> Option<u64> {
     if ns == u64::MAX { None } else { Some(ns) }
 }
@@ -55,8 +60,9 @@ pub fn run_observed(prop: &str, timeout_ns: u64, ops: &[Op], epilogue: bool, sta
     // with a zero timeout the scanner is created through Default half of the time
     let mut sc = if timeout_ns == 0 && hash64(&ops) & 1 == 1 { api(PollingParameterNumberMessageScanner::default) } else { new_scanner(timeout_ns) };
     let mut ob = PollObserver::new(timeout);
-    let mut now: u64 = 0;
-    set_clock(0);
+    // the epoch of the clock must not matter: the history itself picks where the clock starts
+    let mut now: u64 = clock_start(hash64(&ops));
+    set_clock(now);
     let mut tail: Vec<Op> = Vec::new();
     if epilogue {
         if let Some(t) = timeout {
@@ -403,8 +409,9 @@ fn check_scenario(s: &Scenario) -> Result<ROutcome, Fail> {
 
 /// The scenario body on an explicit prefix and timeout (shared by generation and replay).
 fn check_scenario_ops(s: &Scenario, prefix: &[Op], t: u64) -> Result<ROutcome, Fail> {
-    let mut sim = Sim { sc: new_scanner(t), now: 0 };
-    set_clock(0);
+    let start = clock_start(hash64(&(prefix, s.a, s.b)));
+    set_clock(start);
+    let mut sim = Sim { sc: new_scanner(t), now: start };
     sim.apply(prefix);
     let ch = s.ch;
     // a fresh selection on the channel (outputs of the selection bytes may flush earlier traffic)
